@@ -8,6 +8,7 @@ TWINS = {  # broken designs of the read path and the invariants that must refute
     "noforget": {"Replaced", "NoBadLeft"},
     "direct": {"RawOK", "NoBadLeft"},
     "keeppartial": {"RawOK", "NoBadLeft"},
+    "armfirst": {"Replaced"},
 }
 
 
@@ -74,7 +75,7 @@ def run(ctx):
     open(vec, "w").write("\n".join(pick_s + pick_c) + "\n")
 
     designs = ["ok_small"] + (["ok_2l", "ok"] if ctx.thorough() else []) + sorted(TWINS)
-    with cf.ThreadPoolExecutor(max_workers=4) as ex:
+    with cf.ThreadPoolExecutor(max_workers=6) as ex:
         futs = [ex.submit(design_one, ctx, v) for v in designs]
         out = ctx.go_test("internal/repository", "^TestVerif_C38$", timeout=3000, env={"VERIF_VECTORS": vec})
         des = [f.result() for f in futs]
